@@ -143,7 +143,7 @@ def user_tables(rng, n):
 
 def gen_run_cases(rng, quick):
     out = []
-    n = 110 if quick else 2500
+    n = 100 if quick else 2500
     for i in range(n):
         valid = rng.random() < 0.55
         value = rng.choice(valid_forms(rng, CODE)) if valid else rng.choice([None] + near_misses(rng, CODE))
@@ -158,7 +158,19 @@ def gen_run_cases(rng, quick):
             for _ in range(rng.choice([0, 1, 1, 2])):
                 l2 = rng.choice([None, NAME_CASINGS[rng.randrange(4)] + b': ' + rng.choice([b'Basic ' + CODE, b'Basic zzz'])])
                 s2 = P.mk_request(rng, method=rng.choice([b'GET', b'POST', b'HEAD']), auth_line=l2)
-                if rng.random() < 0.25:
+                r2 = rng.random()
+                if r2 < 0.2:
+                    # a later websocket-upgrade request in several reads: Connection/Upgrade lines first, the credentials
+                    # line in a following read, before the blank line
+                    u = P.upgrade_request(rng, auth_line=rng.choice(NAME_CASINGS[:4]) + b': Basic ' + CODE)
+                    steps.extend(P.later_in_pieces(rng, u, P.upgrade_in_pieces(rng, u)))
+                    if rng.random() < 0.5:
+                        steps.append(['client', b'\x81\x05hello', None])
+                    break          # after a forwarded upgrade the client speaks websocket: opaque bytes, no further requests
+                elif r2 < 0.4:
+                    # a later request in several reads cut at header-line boundaries
+                    steps.extend(P.later_in_pieces(rng, s2))
+                elif r2 < 0.55:
                     # two requests back to back in one piece (on_client_data loops over the remainder since e222aa4)
                     s3 = P.mk_request(rng, method=b'GET', auth_line=rng.choice([None, b'Proxy-Authorization: Basic ' + CODE]))
                     steps.append(['client', P.wire(s2) + P.wire(s3), [s2, s3]])
@@ -171,9 +183,47 @@ def gen_run_cases(rng, quick):
                 steps.append(['client', b'\x16\x03\x01 Proxy-Authorization: Basic ' + CODE, None])
             if rng.random() < 0.4:
                 steps.append(['upstream', b'\x16\x03\x03srv'])
+        max_send = None
+        if not valid and rng.random() < 0.6:
+            # the 407 leaves in several writes (short writes / EAGAIN / a small --max-sendbuf-size) and the client keeps
+            # sending: the connection must still be closed once the 407 is out, and nothing of the follow-up may be handled
+            max_send = rng.choice([None, None, 16, 50])
+            extra = [['flush', rng.choice([1, 10, 60, 'block'])]]
+            follow = P.mk_request(rng, method=b'GET', auth_line=rng.choice([None, b'Proxy-Authorization: Basic ' + CODE]))
+            extra.append(['client', rng.choice([P.wire(follow), b'\x16\x03\x01junk']), None])
+            extra.append(['flush', rng.choice([5, 100000])])
+            extra.append(['client', b'more', None])
+            extra.append(['flush', 100000])
+            extra.append(['client', b'even more', None])
+            steps = steps[:1] + extra
         out.append(dict(kind='run', basic_auth=b'user:pass', tables=user_tables(rng, rng.choice([0, 1, 1, 2, 2, 3])),
-                        disable=rng.choice([[], [], [b'x-secret']]), steps=steps,
+                        disable=rng.choice([[], [], [b'x-secret']]), steps=steps, max_send=max_send,
                         end=rng.choice(['client_eof', 'shutdown', 'upstream_eof', 'client_reset'])))
+    return out
+
+
+def gen_segmented_later(rng, quick):
+    """authenticated connection, then a LATER request delivered in several reads cut at header-line boundaries with its
+    Proxy-Authorization line in a later read than its first header lines — plain and websocket-upgrade requests
+    (an unfinished request carrying Connection+Upgrade must not be taken for an established upgrade)"""
+    out = []
+    for i in range(10 if quick else 150):
+        first = P.mk_request(rng, method=b'GET', auth_line=b'Proxy-Authorization: Basic ' + CODE)
+        steps = [P.first_step(rng, first, True)]
+        auth = rng.choice(NAME_CASINGS[:4]) + b': ' + rng.choice([b'Basic ' + CODE, b'basic  ' + CODE])
+        if i % 2 == 0:
+            u = P.upgrade_request(rng, auth_line=auth)
+            steps.extend(P.later_in_pieces(rng, u, P.upgrade_in_pieces(rng, u)))
+            if rng.random() < 0.5:
+                steps.append(['client', b'\x81\x05hello', None])        # websocket frames after the forwarded upgrade
+        else:
+            s2 = P.mk_request(rng, method=rng.choice([b'GET', b'POST']))
+            s2['lines'] = [l for l in s2['lines'] if not l.lower().startswith(b'proxy-authorization')] + [auth]
+            raw = P.wire(s2)
+            c = raw.index(auth)
+            steps.extend([['client', raw[:c], None], ['client', raw[c:], s2]])
+        out.append(dict(kind='run', basic_auth=b'user:pass', tables=user_tables(rng, rng.choice([0, 1])) if rng.random() < 0.3 else [],
+                        disable=[], steps=steps, end=rng.choice(['client_eof', 'shutdown'])))
     return out
 
 
@@ -201,7 +251,7 @@ def gen_code_cases(rng, quick):
 
 def generate(rng, tier):
     quick = tier != 'thorough'
-    return gen_auth_cases(rng, quick) + gen_run_cases(rng, quick) + gen_order_cases(rng, quick) + gen_code_cases(rng, quick)
+    return gen_auth_cases(rng, quick) + gen_run_cases(rng, quick) + gen_segmented_later(rng, quick) + gen_order_cases(rng, quick) + gen_code_cases(rng, quick)
 
 
 # ------------------------------------------------------------------ implementation
@@ -333,6 +383,8 @@ def oracle(case, out):
                 return '407 lacks Proxy-Authenticate: Basic / Connection: close'
             if not out['client_closed']:
                 return 'unauthenticated first request: connection not closed'
+            if not out.get('closed_by_handler'):
+                return 'unauthenticated first request: the proxy did not close the connection after the 407 had been flushed'
             return None
         # authenticated: served, and credentials never reach the origin
         if not tunnel:
